@@ -344,8 +344,9 @@ Definition fmod_go (x y : float) : option float :=      (* math.Mod on the exact
 Definition fpow_go (x y : float) : option float :=      (* math.Pow for small non-negative integer exponents with exact products *)
   match trunc_Z x, trunc_Z y with
   | Some a, Some b =>
-      if PrimFloat.eqb (float_of_Z a) x && PrimFloat.eqb (float_of_Z b) y && (0 <=? b) && (b <=? 64) && (Z.abs (a ^ b) <? 9007199254740992)
-      then Some (float_of_Z (a ^ b)) else None
+      (* the power is computed only once the exponent is known to be small (evaluation is eager) *)
+      if PrimFloat.eqb (float_of_Z a) x && PrimFloat.eqb (float_of_Z b) y && (0 <=? b) && (b <=? 64)
+      then (if Z.abs (a ^ b) <? 9007199254740992 then Some (float_of_Z (a ^ b)) else None) else None
   | _, _ => None
   end.
 
